@@ -27,9 +27,21 @@ CHECKS = {
               "arguments, reads, explicit regeneration calls); oracle = a freshly constructed object.",
         note=_NOTE + " The enumeration is complete for the fixed records used (quick n=96; thorough n in {95,96,128}); histories are sampled.",
         technique="stateful property-based testing (Hypothesis RuleBasedStateMachine) + exhaustive enumeration of the cache-state space; differential oracle (fresh object)"),
+    "C05": dict(
+        level="Hypothesis rule-based state machine over ownership histories (caller containers with byte snapshots; construct / reset_values / 15 mutators / "
+              "caller writes; invariants after every step), Cluster.time_match/same_start value-type invariant, and a registry of 100 public call forms each "
+              "called twice per generated record with argument snapshots before/after and repeatability of results.",
+        note=_NOTE + " Functions that reject a container type (lists for some array functions) are counted as rejected; their inputs must still be unchanged.",
+        technique="stateful property-based testing (Hypothesis RuleBasedStateMachine) + generated differential (snapshot before/after, call twice)"),
     "C08": dict(
         level="Generated search over records (float/int/list), dt and integration mode against a long-double loop over the defining increments "
               "(equality on dyadic data), closed forms for constant/linear acceleration, exact peak / sign / 2^k laws.",
+        note=_NOTE,
+        technique="property-based testing (Hypothesis): reference-model + metamorphic oracles"),
+    "C09": dict(
+        level="Generated search against long-double quadrature references for seven cumulative measures (length, exact monotonicity, first/final values), "
+              "sign / 2^k (bitwise) / general-alpha scaling and zero-padding laws, and a window-bracket oracle for standardised CAV over integer sampling rates "
+              "incl. the float-boundary families (1/dt and k*ns*dt rounding below the integer); ~2.4k quick, ~150k thorough.",
         note=_NOTE,
         technique="property-based testing (Hypothesis): reference-model + metamorphic oracles"),
     "C10": dict(
